@@ -539,9 +539,28 @@ pub fn sanitize(body: &mut Vec<Stmt>) {
 }
 
 pub fn template(o: Opts) -> BoxedStrategy<Vec<Stmt>> {
+    let tame = !o.extreme;
     body(o)
-        .prop_map(|mut b| {
+        .prop_map(move |mut b| {
             sanitize(&mut b);
+            if tame {
+                // In-process consumers (everything but C01's child processes): `debug()` inside a
+                // self-including / self-importing template quotes the previous level's dump at
+                // every level, so its output doubles per level of recursion and exhausts memory
+                // long before fuel or the recursion limit end the render. Not a property's subject.
+                map_stmt_exprs(&mut b, &mut |e| {
+                    map_expr(e, &mut |e| {
+                        if *e == Expr::var("debug") {
+                            *e = Expr::var("dict");
+                        }
+                        // `big` (2^63) as a repeat count makes a lazily repeated sequence whose
+                        // printing never ends
+                        if *e == Expr::var("big") {
+                            *e = Expr::var("i");
+                        }
+                    })
+                });
+            }
             b
         })
         .boxed()
